@@ -117,7 +117,7 @@ func c05Atom(r *rand.Rand, idx int) string {
 		return fmt.Sprintf("h := %s(%s)", b, strings.Join(args, ", "))
 	case 16:
 		return pick(r, []string{"h := bytes(-1)", "h := bytes(-9223372036854775808)", "h := range(0, 100000)", "h := range(9223372036854775807, 9223372036854775800)", "h := range(-9223372036854775808, -9223372036854775800, 3)",
-			"h := range(0, 10, 9223372036854775807)", "h := range(0, 9223372036854775807, 9223372036854775806)", "h := range(1, 9223372036854775807, 9223372036854775807)", "h := range(0, -9223372036854775808, 9223372036854775807)", "h := range(9223372036854775806, 9223372036854775807, 5)", "h := range(-9223372036854775807, -9223372036854775808, 2)", "h := range(9223372036854775800, 9223372036854775807)", "h := splice([1, 2, 3], 9223372036854775807)", "h := splice([1, 2, 3], 1, 9223372036854775807)",
+			"h := range(0, 10, 9223372036854775807)", "h := range(0, 9223372036854775807, 9223372036854775806)", "h := range(1, 9223372036854775807, 9223372036854775807)", "h := range(0, -9223372036854775807 - 1, 9223372036854775807)", "h := range(5, -9223372036854775807 - 1, 9223372036854775806)", "h := range(-9223372036854775807, -9223372036854775807 - 1, 3)", "h := range(9223372036854775806, 9223372036854775807, 5)", "h := range(-9223372036854775800, -9223372036854775807 - 1, 5)", "h := range(9223372036854775800, 9223372036854775807)", "h := splice([1, 2, 3], 9223372036854775807)", "h := splice([1, 2, 3], 1, 9223372036854775807)",
 			"h := splice([1, 2, 3], 3, 1, 1)", "h := splice([1, 2, 3], -1)", "h := char(9223372036854775807)", "h := char(-1) + 1", "h := time(9223372036854775807)", "h := string(time(-9223372036854775808))", "h := int(1e300)", "h := int(\"9223372036854775808\", 1)",
 			"h := 1 << 9223372036854775807", "h := -9223372036854775808 / -1", "h := -9223372036854775808 % -1", "h := 1 / 0", "h := 1 % 0", "h := 1.0 / 0", "h := 'a' - 9223372036854775807"})
 	case 17:
@@ -383,6 +383,17 @@ func (c *c05) RunCase(r *fw.Rec, cs fw.Case) {
 			_ = cp.IsDefined(v.Name())
 			_ = cp.Get(v.Name()).Object()
 		}
+		// every declared name, also those the failed run never reached (their slot was never assigned)
+		for name := range cp.VerifGlobalIndexes() {
+			v := cp.Get(name)
+			if v.Object() == nil {
+				return fmt.Errorf("invariant: Get(%q).Object() is a Go nil Object", name)
+			}
+			_, _, _, _ = v.String(), v.ValueType(), v.IsUndefined(), v.Bool()
+			_, _, _, _ = v.Int(), v.Float(), v.Value(), v.Error()
+			_ = cp.IsDefined(name)
+		}
+		_ = cp.Get("no_such_name").String()
 		cl := cp.Clone()
 		_ = cl.GetAll()
 		return nil
